@@ -236,20 +236,23 @@ Qed.
 Print Assumptions C19_xml_serializer_decodable_partial.
 
 Theorem C19_xml_apply_guards :
-  forall fc D (mkdiff : str -> str -> D) step original parse,
-    let dry := xml_apply fc mkdiff step true original parse in
-    let real := xml_apply fc mkdiff step false original parse in
+  forall fc D (mkdiff : str -> str -> D) (dempty : D -> bool) g step original parse,
+    let dry := xml_apply fc mkdiff dempty g step true original parse in
+    let real := xml_apply fc mkdiff dempty g step false original parse in
     xo_file dry = original /\ xo_ret dry = xo_ret real /\ xo_failed dry = xo_failed real /\ xo_unfixed dry = xo_unfixed real /\
     (xo_ret real = None -> xo_file real = original) /\
     (parse = None -> xo_ret real = None /\ xo_failed real = true /\
                      xo_unfixed real = map (fun f => (f, 0%N)) (xall_findings fc)) /\
     (forall evs, parse = Some evs ->
        xo_failed real = false /\ xo_unfixed real = [] /\
-       (xo_ret real = None <-> snd (run_steps step evs) = []) /\
+       (xo_ret real = None <->
+          snd (run_steps step evs) = [] \/
+          guard_hits dempty g (mkdiff original (universal_newlines (emit_all (fst (run_steps step evs))))) = true) /\
        forall cs, xo_ret real = Some cs ->
                   xcs_changes cs = snd (run_steps step evs) /\
                   xo_file real = universal_newlines (emit_all (fst (run_steps step evs))) /\
-                  xcs_diff cs = mkdiff original (xo_file real)).
+                  xcs_diff cs = mkdiff original (xo_file real) /\
+                  guard_hits dempty g (xcs_diff cs) = false).
 Proof. exact xml_apply_guards. Qed.
 Print Assumptions C19_xml_apply_guards.
 
